@@ -18,7 +18,7 @@ from xmlsem import ir as X, specgen as G, wellformed as W          # noqa: E402
 
 REALISTIC = os.path.join(VERIF, "specs", "realistic")
 WHAT_FOR = {
-    "C02": ("init", "serialize"),
+    "C02": ("init", "serialize", "shape"),
     "C16": ("serialize",),
     "C15": ("serialize", "deserialize"),
     "C19": ("init", "shape", "deserialize"),
@@ -50,7 +50,7 @@ def obligation_properties(name, kind, info, fn):
             return {"C02", "C19"}
         return {"C19", "C03"} if kind in ("no-exc", "none-use") else {"C19"}
     if fn.endswith(".<class>"):
-        return {"C19"}
+        return {"C02"} if kind == "packet" else {"C19"}
     return {p} if p else set()
 
 
@@ -103,8 +103,11 @@ def _work_batch(args):
             spec_dir = payload
         else:
             spec_dir = os.path.join(tmp, "spec")
-            G.write_tree(spec_dir, [(n, b) for n, _, b in payload])
+            pk = [("Act", payload[0][2]), ("Act2", payload[-1][2])]
+            G.write_tree(spec_dir, [(n, b) for n, _, b in payload], packet_bodies=pk)
             res["idents"] = {n: ident for n, ident, _ in payload}
+            res["idents"]["FamActClientPacket"] = "packet:" + payload[0][1]
+            res["idents"]["FamAct2ClientPacket"] = "packet:" + payload[-1][1]
         out_dir = os.path.join(tmp, "out")
         rc, so, se = run_generator(spec_dir, out_dir)
         if rc != 0:
